@@ -122,6 +122,7 @@ pub fn run(args: &Args, r: &mut Report) {
         "c03-metadata-key-and-nonce",
         "c03-nonce-never-reused",
         "c03-rebuild-fresh-nonce-same-body",
+        "c03-rebuild-after-new-id-sends-new-id",
         "c03-bad-url-is-error",
         "c03-installer-metadata-is-wire-request",
         "c03-every-request-decorated",
@@ -196,6 +197,21 @@ pub fn run(args: &Args, r: &mut Report) {
                                     reused += 1;
                                 }
                             }
+                        }
+                    }
+                    // the builder is reused for every retry with a fresh request id (and by embedders with a fresh
+                    // session id): what is kept for verification must still be the bytes of THAT request
+                    {
+                        let rid = GUID::new();
+                        let rid_s = serde_json::to_string(&rid).unwrap_or_default().trim_matches('"').to_string();
+                        let b2 = if i % 2 == 0 { b.request_id(rid) } else { b.session_id(rid) };
+                        if let Ok(Ok((req4, meta4))) = guard(|| b2.build(Some(&handler))) {
+                            let body4 = futures::executor::block_on(hyper::body::to_bytes(req4.into_body())).map(|b| b.to_vec()).unwrap_or_default();
+                            if let Some(md) = &meta4 {
+                                m.judge("c03-metadata-body-is-wire-body", md.request_body == body4, "after-new-id", || "RequestMetadata.request_body differs from the bytes put on the wire after the builder got a new request/session id".into());
+                            }
+                            let has = rid_s.len() >= 32 && String::from_utf8_lossy(&body4).to_lowercase().contains(&rid_s.to_lowercase());
+                            m.judge("c03-rebuild-after-new-id-sends-new-id", has, if i % 2 == 0 { "requestid" } else { "sessionid" }, || format!("the builder was given the id {} but the body put on the wire does not carry it", rid_s));
                         }
                     }
                     match (first, second) {
